@@ -48,6 +48,22 @@ CHECKS = {
              "real code and the arch keys and contents of object and re-dumped payload are compared with the model's re-filing.",
         note="Trusted: TLC, adapters; the 0.3 src-table layout follows the only description there is, the legacy reader.",
         design="4 C10"),
+    "C13": dict(
+        technique="TLA+ lexical spec Nvra.tla (Format / ParseRef over character classes): TLC checks the round trip and fixed point on the model and enumerates the strings fed to the real parse_nvra / Rpms.add",
+        text="TLC enumerates ~30k part tuples (dash/digit-heavy names, epochs, versions/releases over 7 classes, directory prefixes with "
+             "dashes, dots and ':', .rpm suffix), proves ParseRef(Format(p)) = p and the canonical fixed point on the model, and every "
+             "string - concretised with rotating representatives and every architecture of the library's table - must be parsed by the "
+             "real code into exactly the parts it was built from; Rpms.add must file the canonical key.",
+        note="Trusted: TLC, the renderer of class tokens. Bounded: segment length <= 2, 3 segments, part length <= 3.",
+        design="4 C13"),
+    "C14": dict(
+        technique="TLA+ lexical spec ReleaseId.tla: documented grammars as predicates over a class alphabet, Create, shipped ParseImpl; TLC labels every word <= 5/6 and every ID tuple, refutes injectivity; real predicates/create/parse compared",
+        text="Every word up to length 5 (quick) / 6 (thorough) over the seven character classes is labelled by the documented grammars in the "
+             "spec and compared with the three real predicates and with what create_release_id refuses; every (short, version, type[, base "
+             "product]) tuple of the round-trip domain is created and parsed by the real code and compared with the tuple. TLC also decides "
+             "the design question: Create is not injective for dashed shorts (recorded known finding F-14a).",
+        note="Trusted: TLC, RELEASE_TYPES read from the working tree, 2-3 representatives per class.",
+        design="4 C14"),
 }
 
 
